@@ -41,6 +41,10 @@ type ref struct {
 	path []string
 	line int
 	want int // oracle verdict: 0 ok, 1 undefined
+	// dflt != "": the reference stands in the default of the workflow_call input number dpos and names
+	// an input declared "earlier", the input it"self", one declared "later", or an "undeclared" name
+	dflt string
+	dpos int
 }
 
 type gstep struct {
@@ -311,7 +315,7 @@ func (w *gwf) oracle(rf *ref) int {
 				return 0
 			}
 		}
-		if m.nest && (rf.path[0] == "nest" || rf.path[0] == "objrow") {
+		if m.nest && (rf.path[0] == "nest" || rf.path[0] == "objrow" || rf.path[0] == "objs") {
 			return 0
 		}
 		for _, k := range m.rows {
@@ -397,6 +401,11 @@ func exprOf(r *hx.Rng, ctx string, path []string) string {
 		e = "format('{0}', " + e + ")"
 	case 3:
 		e = "'x' == " + e
+	case 4:
+		// right operand of a logical operator whose left operand has an unknown type
+		e = "github.event.pull_request.html_url || " + e
+	case 5:
+		e = "fromJSON(github.event.client_payload.j) && " + e + " || fromJSON(vars.V)[0]"
 	}
 	return "${{ " + e + " }}"
 }
@@ -426,9 +435,26 @@ func (w *gwf) render(r *hx.Rng) (string, []*ref) {
 		o.add("  workflow_call:")
 		if len(w.callInputs) > 0 {
 			o.add("    inputs:")
-			for _, n := range w.callInputs {
+			aux := hx.NewRng(uint64(len(w.callInputs))*7919 + uint64(len(w.jobs))*104729 + uint64(len(o.lines)))
+			for i, n := range w.callInputs {
 				o.add("      " + n + ":")
 				o.add("        type: string")
+				if w.hasDispatch || !aux.Chance(2, 3) {
+					continue
+				}
+				// the default of an input refers to another input (inputs is available there)
+				target, kind := "undefined_name", "undeclared"
+				switch c := aux.Intn(4); {
+				case (c == 0 || c == 3) && i > 0:
+					target, kind = w.callInputs[aux.Intn(i)], "earlier"
+				case c == 1:
+					target, kind = n, "self"
+				case c == 2 && i+1 < len(w.callInputs):
+					target, kind = w.callInputs[i+1+aux.Intn(len(w.callInputs)-i-1)], "later"
+				}
+				rf := &ref{kind: refInputs, path: []string{lower(target)}, dflt: kind, dpos: i}
+				rf.line = o.add("        default: " + exprOf(aux, "inputs", rf.path))
+				refs = append(refs, rf)
 			}
 		}
 		if w.hasSecrets {
@@ -545,6 +571,11 @@ func (w *gwf) render(r *hx.Rng) (string, []*ref) {
 					}
 					// a row whose first values are mappings and whose last value has an unknown shape:
 					// nothing is known about the members of matrix.objrow
+					// a row of mappings of one shape whose (nested) keys are written with capitals
+					o.add("        objs:")
+					o.add("          - {Name: a, Deep: {Flags: x, LIST: [{Item: 1}]}}")
+					o.add("          - Name: b")
+					o.add("            Deep: {Flags: y, LIST: [{Item: 2}]}")
 					o.add("        objrow:")
 					if r.Chance(1, 2) {
 						o.add("          - {name: a}")
@@ -625,6 +656,14 @@ func (w *gwf) render(r *hx.Rng) (string, []*ref) {
 				for _, mem := range []string{"name", "flags"} {
 					planted++
 					plant(indent, fmt.Sprintf("R%d", planted), &ref{kind: refMatrix, job: ji, path: []string{"objrow", mem}}, "matrix")
+				}
+				// the members of the row of same-shaped mappings are defined, however their keys are spelled
+				aux := hx.NewRng(uint64(len(o.lines)) + uint64(ji)*1000003)
+				for _, pth := range [][]string{{"objs", "name"}, {"objs", "deep", "flags"}} {
+					planted++
+					rf := &ref{kind: refMatrix, job: ji, path: pth}
+					rf.line = o.add(fmt.Sprintf("%sR%d: %s", indent, planted, exprOf(aux, "matrix", pth)))
+					refs = append(refs, rf)
 				}
 			}
 			// inputs / secrets
@@ -881,6 +920,9 @@ func main() {
 	cases, err := os.Create(filepath.Join(*outDir, "cases.txt"))
 	hx.Must(err)
 	defer cases.Close()
+	dcases, err := os.Create(filepath.Join(*outDir, "cases_defaults.txt"))
+	hx.Must(err)
+	defer dcases.Close()
 	nontrivial := 0
 	for i := 0; i < *n; i++ {
 		g := gen(r)
@@ -897,6 +939,7 @@ func main() {
 		}
 		lines := strings.Split(src, "\n")
 		var rcoq, obs []string
+		dcase := map[int][]string{}
 		for _, rf := range refs {
 			rf.want = g.oracle(rf)
 			got := classify(by[rf.line])
@@ -905,11 +948,25 @@ func main() {
 			if got == 1 || rf.want == 1 {
 				nontrivial++
 			}
+			if rf.dflt != "" {
+				sum.Dist["input_default_reference_"+rf.dflt]++
+			}
 			if got != rf.want {
+				key := fmt.Sprintf("scope:kind%d:got%d:want%d", rf.kind, got, rf.want)
+				what := "a reference is reported (or not) against the scope rule of the property"
+				if rf.dflt != "" {
+					key = fmt.Sprintf("scope:input-default:%s:got%d:want%d", rf.dflt, got, rf.want)
+					what = "a reference from the default of a workflow_call input to an input declared " + rf.dflt + " is reported (or not) against the scope rule of the property (inputs sees exactly the declared names)"
+				}
 				sum.OracleFails = append(sum.OracleFails, failure{
-					What: "a reference is reported (or not) against the scope rule of the property",
-					Key:  fmt.Sprintf("scope:kind%d:got%d:want%d", rf.kind, got, rf.want), Workflow: src, Line: rf.line,
+					What: what, Key: key, Workflow: src, Line: rf.line,
 					Text: strings.TrimSpace(lines[rf.line-1]), Got: got, Want: rf.want, Messages: strings.Join(by[rf.line], " | ")})
+			}
+			if rf.dflt != "" {
+				// checked against the model of the declaration-order loop (Wf/InputDefaults.v), not against
+				// the scope model of the other positions
+				dcase[rf.dpos] = []string{hx.CoqStr(rf.path[0]), fmt.Sprintf("[%d]%%N", got)}
+				continue
 			}
 			var c string
 			switch rf.kind {
@@ -942,6 +999,19 @@ func main() {
 		term := fmt.Sprintf("(Build_wfS %s %s %s %s %s %s, %s)", ai.jobsCoq, hx.CoqList(ai.stepsCoq), hx.CoqList(ai.matCoq),
 			opt(g.hasCall, g.callInputs), opt(g.hasDispatch, g.dispatchInputs), opt(g.hasCall && g.hasSecrets, g.secrets), hx.CoqList(rcoq))
 		fmt.Fprintf(cases, "(%s, %s)\n", term, hx.CoqList(obs))
+		if len(dcase) > 0 {
+			var ds, rows []string
+			for di, n := range g.callInputs {
+				if c, ok := dcase[di]; ok {
+					ds = append(ds, "("+hx.CoqStr(lower(n))+", ["+c[0]+"])")
+					rows = append(rows, c[1])
+				} else {
+					ds = append(ds, "("+hx.CoqStr(lower(n))+", [])")
+					rows = append(rows, "[]")
+				}
+			}
+			fmt.Fprintf(dcases, "(%s, %s)\n", hx.CoqList(ds), hx.CoqList(rows))
+		}
 		if i < 2 {
 			sum.Samples = append(sum.Samples, map[string]interface{}{"workflow": src, "references": len(refs)})
 		}
